@@ -17,6 +17,8 @@ use model::fnv;
 pub struct EnumSrc {
     pub outer: Vec<String>,
     pub generics: &'static str,
+    /// where clause (with leading space) or empty
+    pub where_clause: &'static str,
     /// (attrs, name suffix / fields)
     pub variants: Vec<(Vec<String>, String)>,
 }
@@ -28,7 +30,7 @@ impl EnumSrc {
             s.push_str(a);
             s.push('\n');
         }
-        s.push_str(&format!("pub enum Tok{} {{\n", self.generics));
+        s.push_str(&format!("pub enum Tok{}{} {{\n", self.generics, self.where_clause));
         for (i, (attrs, fields)) in self.variants.iter().enumerate() {
             for a in attrs {
                 s.push_str("    ");
@@ -67,8 +69,8 @@ pub fn enum_strategy() -> BoxedStrategy<EnumSrc> {
     let outer = prop_oneof![3 => derive_attr, 3 => select(OUTER_OTHER).prop_map(|s| s.to_string()), 2 => select(OUTER_LOGOS).prop_map(|s| s.to_string())];
     let pats = select(vec!["a", "bb", "ccc", "d+", "[e-h]x", "0", "if", "==", "\\.", "日"]);
     let variant = (vec(select(VAR_OTHER), 0..=2), vec(pats, 0..=2), select(vec!["unit", "unit", "u32", "str", "string"]), select(FIELD_ATTRS), any::<u8>());
-    (vec(outer, 0..=5), vec(variant, 1..=5), any::<bool>())
-        .prop_map(|(mut outer, vars, lifetime)| {
+    (vec(outer, 0..=5), vec(variant, 1..=5), any::<bool>(), prop::bool::weighted(0.4))
+        .prop_map(|(mut outer, vars, lifetime, with_where)| {
             // make sure Logos is derived somewhere (the CLI is meant for such enums); keep generated position otherwise
             if !outer.iter().any(|a| a.starts_with("#[derive(") && a.contains("Logos")) {
                 outer.insert(0, "#[derive(Logos, Debug)]".to_string());
@@ -99,7 +101,7 @@ pub fn enum_strategy() -> BoxedStrategy<EnumSrc> {
                 };
                 variants.push((attrs, fields));
             }
-            EnumSrc { outer, generics: if needs_lt { "<'a>" } else { "" }, variants }
+            EnumSrc { outer, generics: if needs_lt { "<'a>" } else { "" }, where_clause: if needs_lt && with_where { " where 'a: 'a" } else { "" }, variants }
         })
         .boxed()
 }
@@ -300,7 +302,7 @@ pub fn main_c17(args: &Args) -> i32 {
         let v: serde_json::Value = serde_json::from_str(&std::fs::read_to_string(path).unwrap()).unwrap();
         let src = v["source"].as_str().unwrap().to_string();
         // replay through a literal source
-        let e = EnumSrc { outer: vec![src.trim_end().to_string()], generics: "", variants: vec![] };
+        let e = EnumSrc { outer: vec![src.trim_end().to_string()], generics: "", where_clause: "", variants: vec![] };
         let _ = e;
         return replay_c17(&cli, &src, path);
     }
